@@ -18,6 +18,8 @@ func c12Alphabet() []fsx.Op {
 		{K: "REMOVE", H: "root", N: "f"}, {K: "REMOVE", H: "root", N: "g"}, {K: "RESTART"},
 		// a symbolic link stores its target like file data: its inode and block are recycled too
 		{K: "SYMLINK", H: "root", N: "s", Target: "link-target-of-forty-one-bytes-0123456789"}, {K: "REMOVE", H: "root", N: "s"},
+		// ... and so is the block of a directory (its "." and ".." entries)
+		{K: "MKDIR", H: "root", N: "d"}, {K: "RMDIR", H: "root", N: "d"},
 	}
 	for _, n := range []uint64{1, 2, 9} {
 		al = append(al, fsx.Op{K: "WRITE", H: "root/f", Off: 0, Cnt: n * 4096, Pat: 0x21, Stable: 2}) // fill f with pattern A
@@ -86,7 +88,7 @@ func C12(r *report.Report, tier string) {
 	s2 := RunSeq(r, "c12.tiny40", depth)
 	r.Extra["searches"] = []*SeqSummary{s1, s2}
 	// crash images of recycling histories
-	sub := []fsx.Op{al[7], al[2], {K: "SETATTR", H: "root/f", Size: 100}, {K: "SETATTR", H: "root/f", Size: 5000}, {K: "WRITE", H: "root/g", Off: 4000, Cnt: 5000, Pat: 0x43, Stable: 2},
+	sub := []fsx.Op{al[9], al[2], al[7], al[8], {K: "SETATTR", H: "root/f", Size: 100}, {K: "SETATTR", H: "root/f", Size: 5000}, {K: "WRITE", H: "root/g", Off: 4000, Cnt: 5000, Pat: 0x43, Stable: 2},
 		{K: "WRITE", H: "root/g", Off: 9*4096 + 7, Cnt: 50, Pat: 0x44, Stable: 0}, {K: "REMOVE", H: "root", N: "g"}, {K: "CREATE", H: "root", N: "f"}}
 	setup := []fsx.Op{{K: "CREATE", H: "root", N: "f"}, {K: "CREATE", H: "root", N: "g"}, {K: "WRITE", H: "root/f", Off: 0, Cnt: 9 * 4096, Pat: 0x21, Stable: 2}}
 	var jobs []crashArg
